@@ -404,7 +404,11 @@ pub fn cmd_check(opts: &BTreeMap<String, String>) -> i32 {
         exit = 1;
     }
     // a worker that died is a violation candidate of its own: confirm in a fresh process
-    for (i, rs, how) in &agg.crashed {
+    for (n_died, (i, rs, how)) in agg.crashed.iter().enumerate() {
+        if n_died >= 3 {
+            println!("(... {} more worker processes died; not replayed)", agg.crashed.len() - 3);
+            break;
+        }
         if *i == u64::MAX {
             println!("HARNESS-ERROR: a worker died outside a run ({how})");
             if exit == 0 {
